@@ -197,8 +197,13 @@ def handle (l : Line) : IO Unit := do
         s!"htest={bits n m1.test}/{bits n m2.test}"
     IO.println s!"obs {id} new=ok tnew={tnew} perr=none pv={showHexList pv} n={n} test={bits n mt.test} oob={oob} all={b01 mt.all} any={b01 mt.any} apply={showIdx ap.1} flag={b01 ap.2} fapply={showIdx ap2.1.values} fflag={b01 ap2.2} omiss={omiss} glue=ok {tfields} {hfield}"
     -- S layer: the specification
-    let den : Nat → Bool := fun i =>
-      Spec.FilterSem.denote re res i e && projs.flatten.all fun fld => Spec.FilterSem.inFixed excl fld res
+    -- the meaning of the expression TEXT: the tree of the parser model when it accepts the text
+    -- (so that a parser that builds another tree is judged wrong), else the tree that was sent
+    let denTree : Nat → Bool := match Proc.FilterText.filterOfText cx text with
+      | .ok tT => fun i => Spec.FilterSem.denote reT res i tT
+      | .error _ => fun i => Spec.FilterSem.denote re res i e
+    let fixedOK := projs.flatten.all fun fld => Spec.FilterSem.inFixed excl fld res
+    let den : Nat → Bool := fun i => denTree i && fixedOK
     let keptS := Spec.FilterSem.keepIdx den res.values
     let flagS := if n == 0 then "n0" else b01 (!keptS.isEmpty)
     let allS := if n == 0 then "n0" else b01 ((List.range n).all den)
